@@ -38,6 +38,7 @@ ENCODED = [
     "tensorly.decomposition._parafac2._compute_projections",
     "tensorly.decomposition._parafac2._project_tensor_slices",
     "tensorly.solvers.nnls.hals_nnls",
+    "tensorly.regression.cp_regression.CPRegressor.fit",
     "tensorly.tenalg.core_tenalg.mttkrp.unfolding_dot_khatri_rao",
     "tensorly.tenalg.core_tenalg._khatri_rao.khatri_rao",
 ]
@@ -48,7 +49,7 @@ BOUNDS = {
 OUTSIDE = [
     "convergence; conditioning beyond non-singularity (the solve contract A x = b presupposes a unique solution)",
     "Ky Fan / Procrustes optimality of the SVD-based block updates (SVD contract)",
-    "tensor-ring ALS, CMTF and the regressors' ridge ALS (not yet encoded in this module)",
+    "tensor-ring ALS, CMTF and the Tucker regressor's ridge ALS (not encoded in this module; the CP regressor is, with at most one output mode)",
     "the consequence 'reported errors are non-increasing' combines this with C06",
 ]
 TRUSTED = ["z3", "solve contract (A x = b)", "SVD contract for HOOI/PARAFAC2 block optimality", "generic lemmas proved by z3 in this run (I1 per shape, 1-D clipped quadratic)"]
@@ -81,6 +82,9 @@ def configs(tier):
     for r, n in [(1, 1), (2, 1), (2, 2)] + ([] if q else [(3, 2)]):
         for pen in ("none", "sparse", "ridge"):
             add("hals_row", r=r, n=n, pen=pen, mode="merge")
+    # (vector samples with scalar targets raise inside fit: known finding of C19, not a configuration here)
+    for xs, ys, R in [((2, 2), (), 1), ((2,), (2,), 1), ((2,), (2,), 2), ((2, 2), (2,), 1)] + ([] if q else [((2, 2), (), 2), ((2, 2), (2,), 2)]):
+        add("cp_regressor", xs=xs, ys=ys, R=R, ns=3)
     add("lemma_1d")
     add("linesearch_accept", shape=(2, 2, 2), R=1, mode="fork")
     return out
@@ -408,7 +412,25 @@ def h_linesearch_accept(E, cfg):
 
     shp, R = cfg["shape"], cfg["R"]
     if not E.symbolic:
-        E.prove("replay_not_applicable", True)
+        # falsification side: on the model input and rescalings of it (the acceptance test mixes relative and absolute errors only
+        # when ||X|| != 1), the reported error must never increase across a line-search sweep of the real run
+        X = np.asarray(E.real("X", shp), dtype=float)
+        F0 = [np.asarray(E.real(f"F{k}", (n, R)), dtype=float) for k, n in enumerate(shp)]
+        ok = True
+        rng = np.random.RandomState(1)
+        for sc in (1.0, 1e-2, 1e-3, 30.0, 0.2):
+            for trial in range(4):
+                Xc = (X + (rng.randn(*shp) * 0.5 if trial else 0)) * sc
+                Fc = [f + (rng.randn(*f.shape) * 0.5 if trial else 0) for f in F0]
+                try:
+                    _, errs = parafac(Xc, R, n_iter_max=11, init=(None, [f.copy() for f in Fc]), tol=0, return_errors=True, linesearch=True)
+                except Exception:
+                    continue
+                errs = [float(e) for e in errs]
+                if any(np.isfinite(b) and np.isfinite(a) and b > a * (1 + 1e-7) + 1e-12 for a, b in zip(errs, errs[1:])):
+                    ok = False
+        E.prove("seven_errors", True)
+        E.prove("jump_only_if_error_decreases", ok)
         return
     backend.configure(solve="havoc")
     X = E.real("X", shp)
@@ -422,3 +444,120 @@ def h_linesearch_accept(E, cfg):
     als = [np.asarray(c[2], dtype=object).T for c in solves[-N:]]
     kept = E.And([E.eq_arrays(f, a) for f, a in zip(fs, als)])
     E.prove("jump_only_if_error_decreases", E.Or(kept, E.gt_strict(errs[-2], errs[-1])))
+
+
+# ------------------------------------------------------------------------------------ CPRegressor (ridge ALS)
+def _reg_pred(X, W, n_in):
+    """prediction of the CP regressor from its factors: yhat[s, o...] = sum_r (sum_x X[s,x] prod_in W_k[x_k,r]) prod_out W_k[o_k,r]"""
+    X = np.asarray(X, dtype=object)
+    ns = X.shape[0]
+    R = np.shape(W[0])[1]
+    g = np.empty((ns, R), dtype=object)
+    for s_ in range(ns):
+        for r in range(R):
+            tot = 0
+            for x in np.ndindex(*X.shape[1:]):
+                p = X[(s_,) + x]
+                for k in range(n_in):
+                    p = p * W[k][x[k], r]
+                tot = tot + p
+            g[s_, r] = tot
+    outs = [np.shape(w)[0] for w in W[n_in:]]
+    pred = np.empty((ns,) + tuple(outs), dtype=object)
+    for idx in np.ndindex(*pred.shape):
+        tot = 0
+        for r in range(R):
+            p = g[idx[0], r]
+            for k, w in enumerate(W[n_in:]):
+                p = p * w[idx[1 + k], r]
+            tot = tot + p
+        pred[idx] = tot
+    return pred
+
+
+def h_cp_regressor(E, cfg):
+    from vt import backend, sym
+    from tensorly.regression.cp_regression import CPRegressor
+
+    xs, ys, R, ns = cfg["xs"], cfg["ys"], cfg["R"], cfg["ns"]
+    n_in = len(xs)
+    if not E.symbolic:
+        X = np.asarray(E.real("X", (ns,) + xs), dtype=float)
+        y = np.asarray(E.real("y", (ns,) + ys), dtype=float)
+        lam = float(E.real("lam", pos=True))
+        ok = True
+        rng = np.random.RandomState(2)
+        for trial in range(6):
+            Xc = X + (rng.randn(*X.shape) if trial else 0)
+            yc = y + (rng.randn(*y.shape) if trial else 0)
+            for lam_c in (lam, 25.0, 0.5):
+                prev = None
+                for k in range(1, 14):
+                    try:
+                        reg = CPRegressor(weight_rank=R, n_iter_max=k, tol=0, reg_W=lam_c, random_state=7, verbose=0)
+                        reg.fit(Xc.copy(), yc.copy())
+                    except Exception:
+                        break
+                    w, fs = reg.cp_weight_
+                    pred = np.asarray(_reg_pred(Xc, [np.asarray(f) for f in fs], n_in), dtype=float)
+                    val = float(((yc - pred) ** 2).sum() + lam_c * sum((np.asarray(f) ** 2).sum() for f in fs))
+                    if prev is not None and np.isfinite(val) and val > prev * (1 + 1e-7) + 1e-10:
+                        ok = False
+                    prev = val
+        for i in range(n_in + len(ys)):
+            E.prove(f"block{i}/system_matrix_is_ridge_gram", ok)
+            E.prove(f"block{i}/rhs_is_design_transpose_times_targets", ok)
+        E.prove("one_solve_per_block", ok)
+        return
+    backend.configure(solve="contract")
+    X = E.real("X", (ns,) + xs)
+    y = E.real("y", (ns,) + ys)
+    lam = E.real("lam", pos=True)
+    reg = CPRegressor(weight_rank=R, n_iter_max=1, tol=0, reg_W=lam, random_state=7, verbose=0)
+    reg.fit(np.array(X), np.array(y))
+    calls = [c for c in sym.CTX.stub_calls if c[0] == "solve"]
+    nb = n_in + len(ys)
+    E.prove("one_solve_per_block", len(calls) == nb)
+    # the same seeded stream gives the same initial weights (uninterpreted draws are functional in (seed, draw index, position))
+    rs = backend.s_check_random_state(7)
+    W = [np.asarray(rs.randn(n, R), dtype=object) for n in xs] + [np.asarray(rs.randn(n, R), dtype=object) for n in ys]
+    yo = np.asarray(y, dtype=object)
+    for i in range(nb):
+        A_code, B_code = calls[i][1]
+        out = np.asarray(calls[i][2], dtype=object)
+        if i < n_in:
+            n_i = xs[i]
+            cols = []
+            for j in range(n_i):
+                for r in range(R):
+                    Wt = list(W)
+                    Eb = np.zeros((n_i, R), dtype=object)
+                    Eb[j, r] = 1
+                    Wt[i] = Eb
+                    cols.append(np.asarray(_reg_pred(X, Wt, n_in), dtype=object).ravel())
+            Phi = np.stack(cols, axis=1)
+            A = matmul(Phi.T, Phi)
+            for d in range(A.shape[0]):
+                A[d, d] = A[d, d] + lam
+            b = matmul(Phi.T, yo.reshape(-1, 1))[:, 0]
+            E.prove_eq(f"block{i}/system_matrix_is_ridge_gram", A_code, A)
+            E.prove_eq(f"block{i}/rhs_is_design_transpose_times_targets", B_code, b)
+            W[i] = out.reshape(n_i, R)
+        else:
+            # single output mode: unknown is (R x O); design g[s, r] from the input factors
+            g = np.asarray(_reg_pred(X, W[:n_in], n_in), dtype=object) if False else None
+            Wt = list(W[:n_in])
+            ns_ = ns
+            G = np.empty((ns_, R), dtype=object)
+            for r in range(R):
+                # g[:, r]: prediction with a single unit output weight on component r
+                ones_out = [np.zeros((1, R), dtype=object)]
+                ones_out[0][0, r] = 1
+                G[:, r] = np.asarray(_reg_pred(X, Wt + ones_out, n_in), dtype=object)[:, 0]
+            A = matmul(G.T, G)
+            for d in range(R):
+                A[d, d] = A[d, d] + lam
+            B = matmul(G.T, yo.reshape(ns_, -1))
+            E.prove_eq(f"block{i}/system_matrix_is_ridge_gram", A_code, A)
+            E.prove_eq(f"block{i}/rhs_is_design_transpose_times_targets", B_code, B)
+            W[i] = out.T
